@@ -3,7 +3,7 @@
    A case is a scripted two-endpoint session: setup, then steps; every step
    carries what the real cedar Streams were observed to do. *)
 From Coq Require Import List NArith ZArith Bool.
-From Cedar Require Import Lib.Bytes Lib.Sym gen.Consts Model.Frame.
+From Cedar Require Export Lib.Bytes Lib.Sym gen.Consts Model.Frame Model.FrameSpec.
 Import ListNotations.
 Local Open Scope N_scope.
 
@@ -13,47 +13,6 @@ Definition dig_eqb (a b : N * N * bytes * bytes) : bool :=
   (l1 =? l2) && (s1 =? s2) && bytes_eqb h1 h2 && bytes_eqb t1 t2.
 Definition xmatch (m : bytes) (x : xbytes) : bool :=
   match x with XB bs => bytes_eqb m bs | XD d => dig_eqb (digestN m) d end.
-
-(* sender operations *)
-Inductive sop :=
-| OSend (d : bytes) | OPartial (d : bytes) | OWrite (d : bytes) | OEnd | OStart
-| OSecret (d : bytes) | OSetCrypto (b : bool).
-
-Definition ok_cls {A} (r : sres A) : N := match r with SOk _ => 0 | SErr _ => 1 end.
-
-Definition run_sop (s : stream) (o : sop) : stream * N * list frame :=
-  match o with
-  | OSend d => match send_frame s d EndFlagComplete with
-               | (s1, SOk f) => (s1, 0, [f]) | (s1, SErr _) => (s1, 1, []) end
-  | OPartial d => match send_frame s d EndFlagPartial with
-                  | (s1, SOk f) => (s1, 0, [f]) | (s1, SErr _) => (s1, 1, []) end
-  | OWrite d => match write_message s d with
-                | (s1, SOk fs) => (s1, 0, fs) | (s1, SErr _) => (s1, 1, []) end
-  | OEnd => match end_message s with
-            | (s1, SOk fs) => (s1, 0, fs) | (s1, SErr _) => (s1, 1, []) end
-  | OStart => (start_message s, 0, [])
-  | OSecret d =>
-      let s1 := prepare_secret s in
-      match send_frame s1 (d ++ [x00]) EndFlagComplete with
-      | (s2, SOk f) => (restore_secret s2, 0, [f])
-      | (s2, SErr _) => (restore_secret s2, 1, [])
-      end
-  | OSetCrypto b =>
-      if b then match key s with
-                | Some _ => (upd_enc s true (before_secret s), 0, [])
-                | None => (s, 1, [])
-                end
-      else (upd_enc s false (before_secret s), 0, [])
-  end.
-
-Fixpoint run_sops (s : stream) (ops : list sop) : stream * list N * list frame :=
-  match ops with
-  | [] => (s, [], [])
-  | o :: r =>
-      let '(s1, e, fs) := run_sop s o in
-      let '(s2, es, fs2) := run_sops s1 r in
-      (s2, e :: es, fs ++ fs2)
-  end.
 
 (* an observed wire frame, as parsed and opened by the harness's reference codec *)
 Inductive xw :=
@@ -142,16 +101,16 @@ Definition res_matches (m : mres) (x : rres) : bool :=
   | MFail, RErr => true
   | _, _ => false
   end.
-(* compare up to and including the first failure (model or observed) *)
-Fixpoint run_rops (s : stream) (fs : list frame) (ops : list rop) (obs : list rres) : stream * bool :=
+(* compare up to and including the first failure (model or observed); returns the frames not yet consumed *)
+Fixpoint run_rops (s : stream) (fs : list frame) (ops : list rop) (obs : list rres) : stream * list frame * bool :=
   match ops, obs with
-  | [], [] => (s, true)
+  | [], [] => (s, fs, true)
   | o :: ops', x :: obs' =>
       let '(s1, r, m) := run_rop s fs o in
       if res_matches m x then
-        match m with MFail => (s1, true) | _ => run_rops s1 r ops' obs' end
-      else (s1, false)
-  | _, _ => (s, false)
+        match m with MFail => (s1, r, true) | _ => run_rops s1 r ops' obs' end
+      else (s1, r, false)
+  | _, _ => (s, fs, false)
   end.
 
 (* frames handed to the receiver after an on-path edit *)
@@ -178,7 +137,8 @@ Inductive step :=
 Inductive case := CPair (su : setup) (steps : list step).
 
 (* both ends, plus every frame ever sent per direction (for replays) *)
-Record world := { wa : stream; wb : stream; hab : list frame; hba : list frame; wkey : bytes }.
+Record world := { wa : stream; wb : stream; hab : list frame; hba : list frame; wkey : bytes;
+                  pab : list frame; pba : list frame (* sent, not yet read *) }.
 
 Fixpoint send_clear (s r : stream) (msgs : list bytes) : stream * stream * bool :=
   match msgs with
@@ -196,17 +156,17 @@ Fixpoint send_clear (s r : stream) (msgs : list bytes) : stream * stream * bool 
 
 Definition init_world (su : setup) : option world :=
   match su with
-  | SPlain => Some {| wa := new_stream; wb := new_stream; hab := []; hba := []; wkey := [] |}
+  | SPlain => Some {| wa := new_stream; wb := new_stream; hab := []; hba := []; wkey := []; pab := []; pba := [] |}
   | SKeyed k ivA ivB preAB preBA =>
       let '(a1, b1, ok1) := send_clear new_stream new_stream preAB in
       let '(b2, a2, ok2) := send_clear b1 a1 preBA in
       match set_key a2 k ivA, set_key b2 k ivB with
-      | SOk a3, SOk b3 => if ok1 && ok2 then Some {| wa := a3; wb := b3; hab := []; hba := []; wkey := k |} else None
+      | SOk a3, SOk b3 => if ok1 && ok2 then Some {| wa := a3; wb := b3; hab := []; hba := []; wkey := k; pab := []; pba := [] |} else None
       | _, _ => None
       end
   | SBlobs ba bb =>
       match import_state ba [], import_state bb [] with
-      | SOk a, SOk b => Some {| wa := a; wb := b; hab := []; hba := []; wkey := b_key ba |}
+      | SOk a, SOk b => Some {| wa := a; wb := b; hab := []; hba := []; wkey := b_key ba; pab := []; pba := [] |}
       | _, _ => None
       end
   end.
@@ -222,11 +182,12 @@ Definition run_step (w : world) (st : step) : world * bool :=
       let '(s1, errs, fs) := run_sops snd_s sops in
       let hist1 := hist ++ fs in
       let ok_send := eqb_list_N errs serr && all2 (frame_matches (wkey w)) fs wire in
-      let rfs := match edit with None => fs | Some es => map (realize hist1) es end in
-      let '(r1, ok_recv) := run_rops rcv_s rfs rops rres in
+      let pend := if a_sends then pab w else pba w in
+      let rfs := match edit with None => pend ++ fs | Some es => map (realize hist1) es end in
+      let '(r1, lft, ok_recv) := run_rops rcv_s rfs rops rres in
       (if a_sends
-       then {| wa := s1; wb := r1; hab := hist1; hba := hba w; wkey := wkey w |}
-       else {| wa := r1; wb := s1; hab := hab w; hba := hist1; wkey := wkey w |},
+       then {| wa := s1; wb := r1; hab := hist1; hba := hba w; wkey := wkey w; pab := lft; pba := pba w |}
+       else {| wa := r1; wb := s1; hab := hab w; hba := hist1; wkey := wkey w; pab := pab w; pba := lft |},
        ok_send && ok_recv)
   | StHandoff who_a ok =>
       let s := if who_a then wa w else wb w in
@@ -234,8 +195,8 @@ Definition run_step (w : world) (st : step) : world * bool :=
       | SOk b =>
           match import_state b (peer_addr s) with
           | SOk s' =>
-              (if who_a then {| wa := s'; wb := wb w; hab := hab w; hba := hba w; wkey := wkey w |}
-               else {| wa := wa w; wb := s'; hab := hab w; hba := hba w; wkey := wkey w |}, ok)
+              (if who_a then {| wa := s'; wb := wb w; hab := hab w; hba := hba w; wkey := wkey w; pab := pab w; pba := pba w |}
+               else {| wa := wa w; wb := s'; hab := hab w; hba := hba w; wkey := wkey w; pab := pab w; pba := pba w |}, ok)
           | SErr _ => (w, negb ok)
           end
       | SErr _ => (w, negb ok)
@@ -243,8 +204,8 @@ Definition run_step (w : world) (st : step) : world * bool :=
   | StCrypto who_a on ok =>
       let s := if who_a then wa w else wb w in
       let '(s', e, _) := run_sop s (OSetCrypto on) in
-      (if who_a then {| wa := s'; wb := wb w; hab := hab w; hba := hba w; wkey := wkey w |}
-       else {| wa := wa w; wb := s'; hab := hab w; hba := hba w; wkey := wkey w |},
+      (if who_a then {| wa := s'; wb := wb w; hab := hab w; hba := hba w; wkey := wkey w; pab := pab w; pba := pba w |}
+       else {| wa := wa w; wb := s'; hab := hab w; hba := hba w; wkey := wkey w; pab := pab w; pba := pba w |},
        Bool.eqb (e =? 0) ok)
   end.
 
